@@ -18,6 +18,10 @@ def make_row(hs, label):
         return {'x': 1}
     if label == 'A2':
         return {'id': 'a', 'dup': 1}
+    if label == 'XF':
+        return {'x': 1.0000004}        # differs from X by less than any display tolerance: still another row
+    if label == 'XT':
+        return {'x': True}             # equal to X as a dict (True == 1): list semantics treat them alike
     if label == 'I7':
         return {'id': 7}
     if label == 'R':
@@ -47,7 +51,9 @@ def row_label(hs, row):
     if 'dup' in row:
         return 'A2'
     if 'x' in row:
-        return 'X'
+        if row['x'] is True:
+            return 'XT'
+        return 'X' if row['x'] == 1 else 'XF'
     if 'id' not in row:
         return 'E'
     i = row['id']
@@ -78,7 +84,7 @@ class GridSpec(H.Spec):
         self.hs = hszinc
 
     # ---- roots: a fresh grid, and grids derived from reached states (slices, filter results) -----
-    ROOTS = [['fresh'], ['fresh-unversioned']]
+    ROOTS = [['fresh'], ['fresh-unversioned'], ['fresh-reordered']]
 
     def roots(self):
         return [list(r) for r in self.ROOTS]
@@ -87,6 +93,14 @@ class GridSpec(H.Spec):
         hs = self.hs
         if root[0] == 'fresh':
             g = hs.Grid(version='3.0', metadata={'m': 'meta'}, columns=[('id', []), ('x', [('u', 'kg')]), ('dup', [])])
+            return g, []
+        if root[0] == 'fresh-reordered':
+            # same header as 'fresh', but every ordered map reached its order by relocation, not by appending
+            g = hs.Grid(version='3.0', metadata={'m2': 'second', 'm': 'meta'}, columns=[('x', [('w', 'late'), ('u', 'kg')]), ('dup', []), ('id', [])])
+            for m, k in ((g.column, 'id'), (g.metadata, 'm'), (g.column['x'], 'u')):
+                v = m[k]
+                del m[k]
+                m.add_item(k, v, index=0)
             return g, []
         if root[0] == 'fresh-unversioned':
             # no explicit version: the list row upgrades the grid to 3.0, which every derived grid must report too
@@ -103,7 +117,7 @@ class GridSpec(H.Spec):
         raise HarnessError(root)
 
     def derived_roots(self, g, model, hist, root):
-        if root[0] not in ('fresh', 'fresh-unversioned') or len(hist) > 3 or not model:
+        if root[0] not in ('fresh', 'fresh-unversioned', 'fresh-reordered') or len(hist) > 3 or not model:
             return []
         out = []
         n = len(model)
@@ -142,7 +156,7 @@ class GridSpec(H.Spec):
         ops.append(('pop_last',))
         for a, b in ((0, 1), (0, 2), (1, None), (None, None), (-1, None), (5, None), (1, 1)):
             ops.append(('delslice', a, b))
-        for r in ('A', 'E', 'B', 'X', 'A2', 'I7'):
+        for r in ('A', 'E', 'B', 'X', 'A2', 'I7') + tuple(x for x in ('XF', 'XT') if x in self.ROWS):
             ops.append(('remove', r))
         ops += [('reverse',), ('clear',)]
         if self.LOOKUPS:
@@ -368,6 +382,12 @@ class GridSpec(H.Spec):
             e, o = (v in model), H.outcome(lambda: v in g)
             if o != ('ok', e):
                 problems.append(('contains', '%s in g -> %r, list gives %r' % (label, o, e)))
+            e, o = H.outcome(lambda: model.index(v)), H.outcome(lambda: g.index(v))
+            if o != e:
+                problems.append(('index', 'g.index(%s) -> %r, list gives %r' % (label, o, e)))
+            e, o = H.outcome(lambda: model.count(v)), H.outcome(lambda: g.count(v))
+            if o != e:
+                problems.append(('count', 'g.count(%s) -> %r, list gives %r' % (label, o, e)))
         if self.prop == 'C14':
             for what, msg in problems[:1]:
                 st.fail('grid-observation-differs-from-list', {'what': what, 'after_op': last, 'derived': hist[0][0]}, case,
@@ -407,7 +427,7 @@ class GridSpec(H.Spec):
 
 class C14Quick(GridSpec):
     prop = 'C14'
-    ROWS = ['E', 'A', 'B', 'X', 'A2']
+    ROWS = ['E', 'A', 'B', 'X', 'A2', 'XF']
     LOOKUPS = True
 
     def lookup_keys(self):
@@ -415,7 +435,7 @@ class C14Quick(GridSpec):
 
 
 class C14Thorough(C14Quick):
-    ROWS = ['E', 'A', 'B', 'X', 'A2', 'I7', 'R']
+    ROWS = ['E', 'A', 'B', 'X', 'A2', 'XF', 'XT', 'I7', 'R']
 
 
 class C15Quick(GridSpec):
